@@ -22,13 +22,13 @@ claimed['C04'] = ("Every path of Parse, streaming NextBlock+Rewrite, Render unde
 claimed['C07'] = ("All paths of Parse+Render (IgnoreRaw, and raw-free documents) over the bounded inputs and one template per attribute-emission site; a strict tokenizer over the symbolic output asserts vocabulary, nesting, quoting and escaping; solver-decided.", "§C07")
 claimed['C10'] = ("All paths of Parse+Render in 36 configurations over the bounded inputs and templates; output compared byte-for-byte (solver query per comparison) with an independent reference renderer; determinism, purity (frozen heap) and the join rule asserted.", "§C10")
 claimed['C17'] = ("All paths of Parse+Render with and without each of 5 predicates over HTML templates with symbolic holes and short unconstrained inputs; alignment and WHATWG-tokenizer clauses asserted on the symbolic output.", "§C17")
-claimed['C08'] = ("All paths of the streaming parser under a symbolic read schedule (chunk sizes, empty reads, EOF-with-data are solver variables) and a symbolic fault point, over the bounded inputs; compared with in-memory Parse by deep equality; error persistence asserted.", "§C08")
+claimed['C08'] = ("All paths of the streaming parser under a symbolic read schedule (chunk sizes, empty reads, EOF-with-data are solver variables) and a symbolic fault point, over the bounded inputs, plus 8 KiB-boundary inputs (NUL runs, long lines) with solver-chosen read sizes; compared with in-memory Parse by deep equality; error persistence asserted.", "§C08")
 claimed['C09'] = ("All paths of Parse+Render on D and on its quoted / list-indented form (marker and width are solver variables) over the bounded inputs and multi-line templates; single-root and HTML-relation clauses on symbolic outputs.", "§C09")
 claimed['C14'] = ("All paths of Parse+Render on x and its CRLF/CR/padded/newline-terminated variants over the bounded inputs and templates; equality of outputs/positions decided by the solver.", "§C14")
 claimed['C16'] = ("All paths of stream-parsing the bounded inputs/templates and re-parsing each root block's Source alone; single block, identical tree and zero position asserted.", "§C16")
 claimed['C11'] = ("Every sequence of units up to the bound is explored (classes enumerated through the solver, bytes within a class symbolic); the rendered emphasis structure is compared with a transcription of the spec's delimiter-run algorithm.", "§C11")
 claimed['C12'] = ("All label pairs over a 12-member alphabet up to the bound, all orders/placements of competing definitions, and closure clauses over bounded inputs and link templates; resolution compared with a reference normaliser.", "§C12")
-claimed['C18'] = ("All callback policies (every Pre/Post return value and nil-ness is a solver variable) over six real trees, virtual roots and all virtual tree shapes up to the bound; the event trace is checked against a recursive reference walker.", "§C18")
+claimed['C18'] = ("All callback policies (every Pre/Post return value and nil-ness is a solver variable) over six real trees, virtual roots and all virtual tree shapes up to the bound, plus wide (66+ children) and deep (70 levels) real trees with the position of one false-returning callback a solver variable; the event trace is checked against a recursive reference walker.", "§C18")
 claimed['C06'] = ("Every abstract document within the node budget, with every spelling choice of the canonical serialiser a solver variable and symbolic letters/punctuation/code bytes; rendered HTML compared with the HTML computed from the abstract document.", "§C06")
 claimed['C19'] = ("Reduction: non-interference. The premise (no call writes to pre-existing state) is established by bounded symbolic execution with the whole heap frozen, for every input in the bound; interleavings are not explored.", "§C19")
 claimed['C20'] = ("All paths of Parse+Format over the bounded inputs with healthy and failing writers (failure point a solver variable); canonical documents within the node budget: HTML preserved and Format idempotent.", "§C20")
@@ -53,7 +53,7 @@ for i in ids:
 na = [{"property_id": i, "reason": reasons.get(i, "check not built yet (in progress); will be claimed once its bound has run clean on the unchanged tree")} for i in ids if i not in claimed]
 m = {
  "version": 1,
- "setup_cmd": "cd engine && GOFLAGS=-mod=mod GOPROXY=off GOSUMDB=off GOTOOLCHAIN=local go build -o ../bin/vcheck ./cmd/vcheck",
+ "setup_cmd": "cd engine && GOFLAGS=-mod=mod GOPROXY=off GOSUMDB=off GOTOOLCHAIN=local go build -o ../bin/vcheck ./cmd/vcheck && cd .. && ./bin/vcheck selftest",
  "hooks": {"guard": "verif",
            "enable": "harness files under /verif/harness carry //go:build verif and are injected into the package by go/packages Overlay (symbolic run) and by go test -tags verif -overlay (native replay); /repo itself contains no hook code",
            "baseline_off_cmd": "cd /repo && GOFLAGS=-mod=mod go test -vet=off -count=1 -timeout 25m ./...",
@@ -61,7 +61,7 @@ m = {
  "engines": [{"name": "symgo", "path": "/verif/engine", "serves_properties": sorted(claimed),
               "kind_free_text": "concolic symbolic executor for go/ssa written for this task: interprets the SSA of /repo's working tree with symbolic input bytes, generational path search, every branch/assertion decided by z3 (QF_BV); native replay of counterexamples and of sampled paths"}],
  "checks": checks,
- "notes": "see DESIGN.md; known findings and fixed defects are listed in known_findings.txt",
+ "notes": "see DESIGN.md (sections 13-14 for the as-built state and the seeded-change campaign); known findings and fixed defects are listed in known_findings.txt; setup_cmd also runs `vcheck selftest` (652 spec examples: interpreter vs native build); `./bin/vcheck twin <id>` is the vacuity guard",
  "not_applicable": na,
 }
 json.dump(m, open(os.path.join(here, 'MANIFEST.json'), 'w'), indent=1)
